@@ -8,6 +8,7 @@
     properties of T) are validated by TLC against the property clauses of LOCG (Trace_C08): one total verdict per trace naming the
     clauses that failed.
 """
+import contextlib
 import json
 import math
 import os
@@ -106,8 +107,13 @@ def run_cg(A, rhs, sc, max_iter, n_tri=0, max_tri=None, guess=None, pre=None, to
     if sc["eps"] is not None:
         kw["eps"] = sc["eps"]
     out = dict(x=None, T=None, warned=False, raised=None, iters=0)
-    with warnings.catch_warnings(record=True) as wl, settings.terminate_cg_by_size(sc["by_size"]):
+    with warnings.catch_warnings(record=True) as wl, settings.terminate_cg_by_size(sc["by_size"]), contextlib.ExitStack() as st:
         warnings.simplefilter("always")
+        if sc.get("via_settings"):
+            # the same limits, handed over the way LinearOperator._solve does: arguments left at None, values taken from the settings
+            st.enter_context(settings.max_cg_iterations(kw["max_iter"]))
+            st.enter_context(settings.max_lanczos_quadrature_iterations(kw["max_tridiag_iter"]))
+            kw["max_iter"], kw["max_tridiag_iter"] = None, None
         try:
             r = linear_cg(mm, rhs.clone(), **kw)
         except Exception as e:  # noqa
@@ -405,9 +411,11 @@ def scenarios(tier, seed):
                   guess="none" if zero_col else ["none", "none", "random", "exact"][h(13) % 4], precond=preconds[h(14) % len(preconds)], tol=tols[h(15) % 3],
                   max_iter=max_iter, n_tri=n_tri, max_tri=max_tri, by_size=h(16) % 4 == 0, dt=dt, eps=None if h(17) % 3 else 1e-30,
                   nan="", budgets=min(max_iter, 45), scale=[1.0, 1.0, 1e5, 1e-5][h(18) % 4])
-        if h(19) % 23 == 0:
+        sc["via_settings"] = h(21) % 3 == 0
+        if h(19) % 23 == 0 or h(19) % 23 == 7:
             sc["max_tri"] = max_iter + 1 + h(20) % 3          # inconsistent limits must raise
             sc["n_tri"] = max(1, n_tri)
+            sc["via_settings"] = h(19) % 23 == 7                # ... also when both limits come from the settings
         elif h(19) % 29 == 0:
             sc["nan"] = ["rhs", "matrix"][h(20) % 2]
             sc["guess"], sc["precond"] = "none", "none"
